@@ -388,6 +388,9 @@ func runCase(w *tr.Writer, seed uint64, idx int, focus string) {
 	if cfg.wbufcap > 0 {
 		opts = append(opts, gnet.WithWriteBufferCap(cfg.wbufcap))
 	}
+	if cfg.scenario == "" && idx%5 == 3 {
+		opts = append(opts, gnet.WithLockOSThread(true)) // no semantic difference: the loops pin their OS threads
+	}
 	if cfg.et {
 		opts = append(opts, gnet.WithEdgeTriggeredIO(true))
 	}
